@@ -1557,6 +1557,9 @@ def simp_cond_logic_ext(expr_s, expr):
     if len(sizes) != 1:
         return expr
     size = list(sizes)[0]
+    if cond.op != "&" and any(arg.is_int() and int(arg) >> size for arg in cond.args):
+        # A constant bit above the extended sources keeps | and ^ non zero
+        return expr
     args = [expr_s(arg[:size]) for arg in cond.args]
     cond = ExprOp(cond.op, *args)
     return ExprCond(cond, expr.src1, expr.src2)
